@@ -83,6 +83,14 @@ SYMBOLIC = False  # True while running under the engine
 KNOWN_SIGNATURES = set()  # open known-finding signatures: excluded from the search
 
 
+def native(fn, *a, **kw):
+    """Run fn on concrete (already decoded) data without tracing overhead."""
+    if SYMBOLIC:
+        with NoTracing():
+            return fn(*a, **kw)
+    return fn(*a, **kw)
+
+
 def reached(key=None, sample=None):
     """Called by a harness when the oracle was reached on a non-trivial case."""
     CTX.reached = True
